@@ -70,6 +70,18 @@ Theorem C11_read_only_untouched : forall g s0 prog fin ord, C11_fresh s0 ->
 Proof. exact read_only_untouched. Qed.
 Print Assumptions C11_read_only_untouched.
 
+(* ---- the decidable checker the harness evaluates on the directories it finds ---------------------------------
+   (sound for every pair of directories; complete for maps without duplicate keys, which snapshots are) *)
+Theorem C11_no_leftovers_checker_sound : forall s0 s, no_leftovers s0 s = true ->
+  forall p, is_control p = true -> lookup s p = lookup s0 p.
+Proof. exact no_leftovers_sound. Qed.
+Print Assumptions C11_no_leftovers_checker_sound.
+
+Theorem C11_no_leftovers_checker_complete : forall s0 s, NoDup (map fst s0) -> NoDup (map fst s) ->
+  (forall p, is_control p = true -> lookup s p = lookup s0 p) -> no_leftovers s0 s = true.
+Proof. exact no_leftovers_complete. Qed.
+Print Assumptions C11_no_leftovers_checker_complete.
+
 (* ---- non-vacuity: concrete runs --------------------------------------------------------------------------- *)
 Definition ex_dir : fs :=
   [ (data 1, [107; 10; 49; 10]); (data 2, [107; 10; 50; 10]); (data 3, [107; 10; 51; 10]);
